@@ -16,6 +16,7 @@ from __future__ import annotations
 import ast
 
 from ..astutil import AnalysisError, dotted, src, walk_local, walk_ordered, calls_in
+from .. import pattern as P
 
 STDCTX = "cohdl/std/_context.py"
 IRR = "cohdl/_core/_ir/_repr.py"
@@ -92,7 +93,7 @@ def rule_wrappers(run):
                 ok = "trigger" in g
                 run.ob(ok, name, file=sc.rel, line=s.lineno, detail=f"clocked:{dotted(s.func)}", expected="step only on the clock edge", found=str(g), sample=False)
             continue
-        resets = [n for n in ast.walk(w) if isinstance(n, ast.If) and src(n.test) == "reset"]
+        resets = [n for n in ast.walk(w) if isinstance(n, ast.If) and P.T(n.test) == "reset"]
         if len(resets) != 1:
             raise AnalysisError(f"{name}: the `if reset:` test was not found exactly once (unknown idiom)")
         r = resets[0]
@@ -116,11 +117,18 @@ def rule_wrappers(run):
                    expected="step action lies in the else part of `if reset:`", found="else" if in_else else ("reset body" if in_body else "outside the reset test"))
         if kind == "async":
             # the clocked part is the elif
-            ok = len(r.orelse) == 1 and isinstance(r.orelse[0], ast.If) and src(r.orelse[0].test) == "trigger"
+            ok = len(r.orelse) == 1 and isinstance(r.orelse[0], ast.If) and P.T(r.orelse[0].test) == "trigger"
             run.ob(ok, name, file=sc.rel, line=r.lineno, detail="elif-clock", expected="elif trigger:", found=src(r.orelse[0].test) if r.orelse and isinstance(r.orelse[0], ast.If) else "other")
     # on_reset normalisation and forwarding
-    first = impl.node.body[0]
-    ok = isinstance(first, ast.If) and "on_reset is None" in src(first.test) and "on_reset = []" in src(first)
+    # a top-level `if on_reset is None: on_reset = [] elif not isinstance(on_reset, list): on_reset = [on_reset]`
+    # that precedes the first nested definition (the wrappers close over the normalised list)
+    ok = False
+    for st in impl.node.body:
+        if isinstance(st, (ast.FunctionDef, ast.AsyncFunctionDef)):
+            break
+        if isinstance(st, ast.If) and src(st.test) == "on_reset is None" and any(src(x) == "on_reset = []" for x in st.body):
+            nxt = st.orelse[0] if len(st.orelse) == 1 and isinstance(st.orelse[0], ast.If) else None
+            ok = nxt is not None and src(nxt.test) == "not isinstance(on_reset, list)" and any(src(x) == "on_reset = [on_reset]" for x in nxt.body)
     run.ob(ok, "_sequential_impl", file=sc.rel, line=impl.node.lineno, detail="on_reset-normalised", expected="None -> [], single callable -> [callable]", found="ok" if ok else "changed")
     call = sc.func("SequentialContext.__call__")
     fwd = [c for c in ast.walk(call.node) if isinstance(c, ast.Call) and dotted(c.func) == "_sequential_impl"]
@@ -129,14 +137,16 @@ def rule_wrappers(run):
     kw = {k.arg: k.value for k in fwd[0].keywords}
     v = kw.get("on_reset")
     names = {dotted(x) for x in ast.walk(v)} if v is not None else set()
-    ok = v is not None and ("cpy._on_reset" in names or "self._on_reset" in names) and "on_reset" in names
+    # the context object whose stored on_reset is forwarded: self or a copy of self (whatever the local is called)
+    ctx_names = {"self"} | {b["__c"] for _n, b in P.find(call.node, "__c = self.copy(___)")} | {b["__c"] for _n, b in P.find(call.node, "__c = self.copy()")}
+    ok = v is not None and any(f"{c}._on_reset" in names for c in ctx_names) and "on_reset" in names
     run.ob(ok, "SequentialContext.__call__", file=sc.rel, line=fwd[0].lineno, detail="on_reset-forwarded",
            expected="both the constructor's and the call's on_reset reach _sequential_impl", found=src(v) if v is not None else "not passed")
     for k, field in (("reset", "_reset"), ("step_cond", "_step_cond")):
         got = src(fwd[0].args[1]) if k == "reset" and len(fwd[0].args) > 1 else src(kw.get(k)) if kw.get(k) is not None else None
-        run.ob(got == f"cpy.{field}", "SequentialContext.__call__", file=sc.rel, line=fwd[0].lineno, detail=f"{k}-forwarded", expected=f"cpy.{field}", found=str(got))
+        run.ob(got in {f"{c}.{field}" for c in ctx_names}, "SequentialContext.__call__", file=sc.rel, line=fwd[0].lineno, detail=f"{k}-forwarded", expected=f"cpy.{field}", found=str(got))
     init = sc.func("SequentialContext.__init__")
-    ok = "self._on_reset = on_reset" in src(init.node) and "self._reset = reset" in src(init.node)
+    ok = "self._on_reset = on_reset" in P.T(init.node) and "self._reset = reset" in P.T(init.node)
     run.ob(ok, "SequentialContext.__init__", file=sc.rel, line=init.node.lineno, detail="stores", expected="stores reset and on_reset", found="ok" if ok else "changed")
     cp = sc.func("SequentialContext.copy")
     kwc = {k.arg: src(k.value) for c in calls_in(cp.node) for k in c.keywords}
@@ -159,7 +169,7 @@ def rule_polarity(run):
     if not iff:
         raise AnalysisError("Reset.__bool__: polarity test not found")
     s = iff[0]
-    t = src(s.test)
+    t = P.T(s.test)
     rb = [r for r in s.body if isinstance(r, ast.Return)]
     ro = [r for r in s.orelse if isinstance(r, ast.Return)]
     if t == "self._active_low":
@@ -173,10 +183,10 @@ def rule_polarity(run):
     run.ob(low_neg, "Reset.__bool__", file=sc.rel, line=s.lineno, detail="active-low", expected="not self._signal", found=src(low[0].value) if low else "?")
     run.ob(high_pos, "Reset.__bool__", file=sc.rel, line=s.lineno, detail="active-high", expected="bool(self._signal)", found=src(high[0].value) if high else "?")
     init = sc.func("Reset.__init__")
-    ok = "self._active_low = active_low" in src(init.node) and "self._is_async = is_async" in src(init.node) and "self._signal = signal" in src(init.node)
+    ok = "self._active_low = active_low" in P.T(init.node) and "self._is_async = is_async" in P.T(init.node) and "self._signal = signal" in P.T(init.node)
     run.ob(ok, "Reset.__init__", file=sc.rel, line=init.node.lineno, detail="stores", expected="fields store their parameters", found="ok" if ok else "changed")
     ia = sc.func("Reset.is_async")
-    ok = src(ia.node.body[-1]) == "return self._is_async"
+    ok = P.T(ia.node.body[-1]) == "return self._is_async"
     run.ob(ok, "Reset.is_async", file=sc.rel, line=ia.node.lineno, detail="accessor", expected="return self._is_async", found=src(ia.node.body[-1]))
     run.end()
 
@@ -190,10 +200,19 @@ def rule_reset_set(run):
     )
     rp = run.idx.mod(IRR)
     v = rp.func("Sequential._pushed_resettable_signals.<locals>.visit_objects")
+    vs0 = rp.func("Sequential._pushed_resettable_signals.<locals>.visit_statements")
+    reset_set = None
+    for st in walk_local(vs0.node):
+        if isinstance(st, ast.If) and "_ResetContext" in src(st.test):
+            for c in ast.walk(ast.Module(body=st.body, type_ignores=[])):
+                if isinstance(c, ast.ListComp) and isinstance(c.generators[0].iter, ast.Name):
+                    reset_set = c.generators[0].iter.id
+    if reset_set is None:
+        raise AnalysisError("anchor vanished: set iterated by the _ResetContext expansion")
     top = [s for s in v.node.body if isinstance(s, ast.If)]
     adm = None
     for s in top:
-        t = src(s.test).replace(" ", "")
+        t = P.T(s.test).replace(" ", "")
         if t in ("access&(AccessFlags.PUSH|AccessFlags.WRITE)", "access&(AccessFlags.WRITE|AccessFlags.PUSH)"):
             adm = s
     run.ob(adm is not None, "Sequential._pushed_resettable_signals", file=rp.rel, line=v.node.lineno, detail="admission-flags",
@@ -201,22 +220,27 @@ def rule_reset_set(run):
            found="ok" if adm is not None else "; ".join(src(s.test) for s in ast.walk(v.node) if isinstance(s, ast.If)))
     if adm is not None:
         inner = [s for s in adm.body if isinstance(s, ast.If)]
-        t = src(inner[0].test) if inner else ""
+        t = P.T(inner[0].test) if inner else ""
         ok = bool(inner) and t in ("root.has_default() and (not root._noreset)", "root.has_default() and not root._noreset", "not root._noreset and root.has_default()")
         run.ob(ok, "Sequential._pushed_resettable_signals", file=rp.rel, line=adm.lineno, detail="admission-condition", expected="has_default() and not _noreset", found=t)
-        ok = "root = obj._root" in src(adm) and any(dotted(c.func) == "resettable.add" and dotted(c.args[0]) == "root" for c in calls_in(adm))
+        # the admitted object is obj._root (directly or through a local), added to the set the reset expansion iterates
+        ok = False
+        for _n, b in P.find(adm, "__set.add(__r)"):
+            if b["__set"] == reset_set and P.has(adm, "__r = obj._root", {"__r": b["__r"]}):
+                ok = True
+        ok = ok or P.has(adm, "__set.add(obj._root)", {"__set": reset_set})
         run.ob(ok, "Sequential._pushed_resettable_signals", file=rp.rel, line=adm.lineno, detail="keyed-by-root", expected="resettable.add(obj._root)", found="ok" if ok else "changed")
     vs = rp.func("Sequential._pushed_resettable_signals.<locals>.visit_statements")
-    br = [s for s in walk_local(vs.node) if isinstance(s, ast.If) and "_ResetContext" in src(s.test)]
+    br = [s for s in walk_local(vs.node) if isinstance(s, ast.If) and "_ResetContext" in P.T(s.test)]
     if not br:
         raise AnalysisError("anchor vanished: _ResetContext expansion")
     comp = [c for c in ast.walk(br[0]) if isinstance(c, ast.ListComp) and any(_contains(b, c) for b in br[0].body)]
-    ok = bool(comp) and dotted(comp[0].generators[0].iter) == "resettable" and not comp[0].generators[0].ifs
+    ok = bool(comp) and dotted(comp[0].generators[0].iter) == reset_set and not comp[0].generators[0].ifs
     run.ob(ok, "Sequential._pushed_resettable_signals", file=rp.rel, line=br[0].lineno, detail="expansion-set", expected="one assignment for every r in resettable", found="ok" if ok else "changed")
     if comp:
         e = comp[0].elt
         var = comp[0].generators[0].target.id
-        ok = isinstance(e, ast.IfExp) and src(e.test) == f"isinstance({var}, Signal)" and src(e.body).startswith(f"SignalAssignment({var}, {var}.default()") and src(e.orelse).startswith(f"VariableAssignment({var}, {var}.default()")
+        ok = isinstance(e, ast.IfExp) and P.T(e.test) == f"isinstance({var}, Signal)" and src(e.body).startswith(f"SignalAssignment({var}, {var}.default()") and src(e.orelse).startswith(f"VariableAssignment({var}, {var}.default()")
         run.ob(ok, "Sequential._pushed_resettable_signals", file=rp.rel, line=e.lineno, detail="expansion-kind",
                expected="SignalAssignment(r, r.default()) if Signal else VariableAssignment(r, r.default())", found=src(e)[:110])
     seq = rp.func("Sequential.__init__")
@@ -234,7 +258,7 @@ def rule_first_state(run):
     if not sig:
         raise AnalysisError("state signal construction not found")
     dflt = sig[0].value.args[0] if isinstance(sig[0].value, ast.Call) and sig[0].value.args else None
-    loops = [l for l in f.node.body if isinstance(l, ast.For) and "enumerate(states" in src(l.iter)]
+    loops = [l for l in f.node.body if isinstance(l, ast.For) and "enumerate(states" in P.T(l.iter)]
     if not loops or dflt is None:
         raise AnalysisError("state id assignment not recognised")
     start = 0
@@ -245,7 +269,7 @@ def rule_first_state(run):
     if len(it.args) > 1 and isinstance(it.args[1], ast.Constant):
         start = it.args[1].value
     nr = loops[0].target.elts[0].id
-    assign = [a for a in loops[0].body if isinstance(a, ast.Assign) and "_state_id" in src(a.targets[0])]
+    assign = [a for a in loops[0].body if isinstance(a, ast.Assign) and "_state_id" in P.T(a.targets[0])]
     val = assign[0].value if assign else None
     # evaluate `self._state_type(nr + k)` at nr = start
     first_id = None
@@ -259,14 +283,14 @@ def rule_first_state(run):
     run.ob(first_id is not None and first_id == d, "Statemachine.__init__", file=rp.rel, line=sig[0].lineno, detail="default-is-first-state",
            expected="default state id == id of states[0]", found=f"default {d}, states[0] gets {first_id}")
     ci = rp.func("StatemachineContext.__init__")
-    ok = "self._states: list[_State] = [self._first]" in src(ci.node) or "self._states = [self._first]" in src(ci.node)
+    ok = "self._states: list[_State] = [self._first]" in P.T(ci.node) or "self._states = [self._first]" in P.T(ci.node)
     run.ob(ok, "StatemachineContext.__init__", file=rp.rel, line=ci.node.lineno, detail="first-is-states[0]", expected="_states starts with _first", found="ok" if ok else "changed")
     fs = rp.func("StatemachineContext.first_state")
     ok = src(fs.node.body[-1]) in ("return self._first", "return self._states[0]")
     run.ob(ok, "StatemachineContext.first_state", file=rp.rel, line=fs.node.lineno, detail="returns-first", expected="return self._first", found=src(fs.node.body[-1]))
     # the state signal takes part in the reset: it is written by transitions (SignalAssignment in as_case_when)
     acw = rp.func("Statemachine.as_case_when")
-    ok = "SignalAssignment" in src(acw.node) and "_current_state" in src(acw.node)
+    ok = "SignalAssignment" in P.T(acw.node) and "_current_state" in P.T(acw.node)
     run.ob(ok, "Statemachine.as_case_when", file=rp.rel, line=acw.node.lineno, detail="state-signal-written", expected="transitions assign the state signal (so it is in the reset set)", found="ok" if ok else "changed")
     run.end()
 
@@ -299,11 +323,11 @@ def rule_defaults(run):
     for a in stores:
         collect(a.value)
     for i, v in enumerate(leaves):
-        ok = (isinstance(v, ast.Constant) and v.value is None) or (isinstance(v, ast.Call) and src(v.func) == "type(self)._Wrapped")
+        ok = (isinstance(v, ast.Constant) and v.value is None) or (isinstance(v, ast.Call) and P.T(v.func) == "type(self)._Wrapped")
         run.ob(ok, "TypeQualifier.__init__", file=tq.rel, line=v.lineno, detail=f"default-leaf#{i}",
                expected="None or a fresh object type(self)._Wrapped(value)", found=src(v))
-    t = src(init.node)
-    ok = "isinstance(self, Temporary)" in "".join(src(a) for a in stores) or any("isinstance(self, Temporary)" in src(x.test) for x in walk_local(init.node) if isinstance(x, ast.If) and any(_contains(x, a) for a in stores))
+    t = P.T(init.node)
+    ok = "isinstance(self, Temporary)" in "".join(src(a) for a in stores) or any("isinstance(self, Temporary)" in P.T(x.test) for x in walk_local(init.node) if isinstance(x, ast.If) and any(_contains(x, a) for a in stores))
     run.ob(ok, "TypeQualifier.__init__", file=tq.rel, line=stores[0].lineno, detail="temporary-no-default", expected="Temporary objects never get a default", found="ok" if ok else "condition removed")
     ok = "self._noreset = noreset" in t
     run.ob(ok, "TypeQualifier.__init__", file=tq.rel, line=init.node.lineno, detail="noreset-stored", expected="self._noreset = noreset", found="ok" if ok else "changed")
@@ -315,7 +339,7 @@ def rule_defaults(run):
     rets = [r for r in walk_local(nc.node) if isinstance(r, ast.Return) and isinstance(r.value, ast.Call)]
     prim = [r for r in rets if any(k.arg == "noreset" for k in r.value.keywords)]
     comp = [r for r in rets if any(k.arg == "_qualifier_" for k in r.value.keywords)]
-    ok = len(prim) == 1 and src([k.value for k in prim[0].value.keywords if k.arg == "noreset"][0]) == "True"
+    ok = len(prim) == 1 and P.T([k.value for k in prim[0].value.keywords if k.arg == "noreset"][0]) == "True"
     run.ob(ok, "_Noreset.__call__", file=cu.rel, line=nc.node.lineno, detail="primitive", expected="noreset=True", found=src(prim[0].value)[:70] if prim else "missing")
     q = src([k.value for k in comp[0].value.keywords if k.arg == "_qualifier_"][0]) if comp else None
     ok = q in ("type(self)()", "self", "self.__class__()", "type(self)(None)")
